@@ -237,7 +237,8 @@ func (i *Int) EuclideanDivVarTime(remainder *Nat, numerator, denominator *Int) (
 		qOut.Set(&qan)
 	}
 	i.Set(&qOut)
-	i.Resize(min(numerator.AnnouncedLen(), numerator.AnnouncedLen()-denominator.TrueLen()+2))
+	// A negative numerator shorter than the denominator still has the quotient -1 or 1: keep at least one bit.
+	i.Resize(max(1, min(numerator.AnnouncedLen(), numerator.AnnouncedLen()-denominator.TrueLen()+2)))
 
 	if remainder != nil {
 		var rOut Int
@@ -315,7 +316,7 @@ func (i *Int) DivVarTime(remainder, numerator, denominator *Int) (ok ct.Bool) {
 	var qInt saferith.Int
 	qInt.SetNat(&q)
 	qInt.Neg(qs)
-	qInt.Resize(min(numerator.AnnouncedLen(), numerator.AnnouncedLen()-denominator.TrueLen()+2))
+	qInt.Resize(max(0, min(numerator.AnnouncedLen(), numerator.AnnouncedLen()-denominator.TrueLen()+2)))
 	i.Set((*Int)(&qInt))
 
 	if remainder != nil {
